@@ -6,7 +6,9 @@
     loop.  [cfg_ok C] and [esc_ok E] are decidable conditions that the check discharges for today's source
     by computation (instance obligations); everything else is proved for all inputs. *)
 From Coq Require Import List NArith Bool.
-From SV Require Import KV.KvBase KV.KvLex KV.KvParse KV.KvSer KV.KvSym KV.KvRoundtrip KV.KvStrip.
+From SV Require Import Text.Str Text.Prog Text.Tokenizer.
+From SV Require Import KV.KvBase KV.KvLex KV.KvParse KV.KvSer KV.KvSym KV.KvParseProofs KV.KvRoundtrip KV.KvStrip
+  KV.KvRefine KV.KvDelivery KV.KvExport KV.KvFlags.
 Import ListNotations.
 Open Scope N_scope.
 
@@ -14,16 +16,46 @@ Open Scope N_scope.
     every code point in names and values except line breaks in names), all whitespace-only indent strings,
     both brace styles, any start_indent, any flag table: parsing the serialised text gives the tree back
     (same shape, order, exact names and values) and no error. *)
-Theorem kv_roundtrip : forall C E, cfg_ok C = true -> esc_ok E = true ->
+Theorem kv_roundtrip : forall C E P, cfg_ok C = true -> esc_ok E = true -> pcfg_ok P = true ->
   forall flag_on o d, ws_opts o = true -> doc_names_ok d = true ->
-  parse_kv E flag_on (serialise_doc C E o d) = POk d.
+  parse_kv P E flag_on (serialise_doc C E o d) = POk d.
 Proof. exact roundtrip_doc. Qed.
 
 (** The same for serialise() called on a named node (start_indent is used there). *)
-Theorem kv_roundtrip_node : forall C E, cfg_ok C = true -> esc_ok E = true ->
+Theorem kv_roundtrip_node : forall C E P, cfg_ok C = true -> esc_ok E = true -> pcfg_ok P = true ->
   forall flag_on o k, ws_opts o = true -> names_ok k = true ->
-  parse_kv E flag_on (serialise_node C E o k) = POk [k].
+  parse_kv P E flag_on (serialise_node C E o k) = POk [k].
 Proof. exact roundtrip_node. Qed.
+
+(** Non-default parse options (allow_escapes=False is outside the model).  For every setting of newline_keys,
+    newline_values and single_line (single_block off): the tree comes back provided each kind of field is either
+    free of line breaks or allowed to have them.  In particular with newline_keys=True the round trip holds for
+    ALL names (the writer escapes LF and CR), and single_line=True never changes the result on serialised text. *)
+Theorem kv_roundtrip_options : forall C E P, cfg_ok C = true -> esc_ok E = true -> pcfg_ok P = true ->
+  forall flag_on O o d, po_single_block O = false -> ws_opts o = true ->
+  po_newline_keys O || doc_names_ok d = true -> po_newline_values O || doc_values_ok d = true ->
+  parse_kv_opts P O E flag_on (serialise_doc C E o d) = POk d.
+Proof. exact roundtrip_doc_opts. Qed.
+
+Theorem kv_roundtrip_options_node : forall C E P, cfg_ok C = true -> esc_ok E = true -> pcfg_ok P = true ->
+  forall flag_on O o k, po_single_block O = false -> ws_opts o = true ->
+  po_newline_keys O || names_ok k = true -> po_newline_values O || values_ok k = true ->
+  parse_kv_opts P O E flag_on (serialise_node C E o k) = POk [k].
+Proof. exact roundtrip_node_opts. Qed.
+
+(** single_block=True returns the node itself ([PNode], not a root): for a serialised named node, and for the
+    first top-level node of a serialised document whatever follows it. *)
+Theorem kv_roundtrip_single_block : forall C E P, cfg_ok C = true -> esc_ok E = true -> pcfg_ok P = true ->
+  forall flag_on O o k, po_single_block O = true -> ws_opts o = true ->
+  po_newline_keys O || names_ok k = true -> po_newline_values O || values_ok k = true ->
+  parse_kv_opts P O E flag_on (serialise_node C E o k) = PNode k.
+Proof. exact roundtrip_single_block_node. Qed.
+
+Theorem kv_roundtrip_single_block_first : forall C E P, cfg_ok C = true -> esc_ok E = true -> pcfg_ok P = true ->
+  forall flag_on O o k ks, po_single_block O = true -> ws_opts o = true ->
+  po_newline_keys O || names_ok k = true -> po_newline_values O || values_ok k = true ->
+  parse_kv_opts P O E flag_on (serialise_doc C E o (k :: ks)) = PNode k.
+Proof. exact roundtrip_single_block_doc. Qed.
 
 (** The serialised text depends on the indentation options only through whitespace: for any two
     whitespace-only option sets the tokenizer sees identical token streams (and no error). *)
@@ -49,30 +81,128 @@ Theorem serialise_ws_canonical_node : forall C E, cfg_ok C = true -> esc_ok E = 
 Proof. exact ws_canonical_node. Qed.
 
 (** The hypotheses are satisfiable (the repaired templates and the pinned escape tables). *)
-Theorem kv_hypotheses_satisfiable : cfg_ok (ref_sercfg (PEsc FName)) = true /\ esc_ok ref_escfg = true.
-Proof. exact (conj ref_cfg_ok ref_esc_ok). Qed.
+Theorem kv_hypotheses_satisfiable :
+  cfg_ok (ref_sercfg (PEsc FName)) = true /\ esc_ok ref_escfg = true /\ pcfg_ok ref_pcfg = true.
+Proof. exact (conj ref_cfg_ok (conj ref_esc_ok ref_pcfg_ok)). Qed.
 
 (** ... and needed.  Block name written raw (pinned tree, DESIGN section 7 #1): rejected by cfg_ok, and the
     model exhibits a tree that does not come back. *)
 Theorem kv_roundtrip_raw_block_name_refuted :
   cfg_ok (ref_sercfg (PRaw FName)) = false /\
   doc_names_ok raw_block_witness = true /\
-  parse_kv ref_escfg (fun _ => false)
+  parse_kv ref_pcfg ref_escfg (fun _ => false)
     (serialise_doc (ref_sercfg (PRaw FName)) ref_escfg default_opts raw_block_witness)
   = PErr (ELex LUnterminated).
 Proof. exact (conj raw_block_name_rejected raw_block_name_refuted). Qed.
 
 (** Names with line breaks are outside the format (the property excludes them). *)
 Theorem kv_roundtrip_linebreak_name_refuted :
-  parse_kv ref_escfg (fun _ => false)
+  parse_kv ref_pcfg ref_escfg (fun _ => false)
     (serialise_doc (ref_sercfg (PEsc FName)) ref_escfg default_opts [Leaf [97; 10] [98]])
   = PErr ENewlineKey.
 Proof. exact linebreak_name_refuted. Qed.
 
 (** Non-whitespace indent strings are outside the "apart from whitespace" clause. *)
 Theorem kv_roundtrip_nonws_indent_refuted :
-  parse_kv ref_escfg (fun _ => false)
+  parse_kv ref_pcfg ref_escfg (fun _ => false)
     (serialise_doc (ref_sercfg (PEsc FName)) ref_escfg
        {| o_indent := [120]; o_indent_braces := true; o_start := [] |} [Block [97] [Leaf [98] [99]]])
   <> POk [Block [97] [Leaf [98] [99]]].
 Proof. exact nonws_indent_refuted. Qed.
+
+(** The root test of the writer must be [is None] (seeded fault c01_1: a truth test also fires on the name ''):
+    rejected by cfg_ok, and the model exhibits the block that loses its header and braces. *)
+Theorem kv_roundtrip_falsy_root_test_refuted :
+  cfg_ok (ref_sercfg_rt RTFalsy (PEsc FName)) = false /\
+  doc_names_ok falsy_root_witness = true /\
+  parse_kv ref_pcfg ref_escfg (fun _ => false)
+    (serialise_doc (ref_sercfg_rt RTFalsy (PEsc FName)) ref_escfg default_opts falsy_root_witness)
+  = POk [Leaf [97] [98]].
+Proof. exact (conj falsy_root_test_rejected falsy_root_test_refuted). Qed.
+
+(** The parser's 'Illegal newline in key' test may reject LF and CR only (seeded fault c01_2: str.splitlines
+    also breaks on VT, FF, FS, GS, RS, NEL, LS, PS): rejected by pcfg_ok, with a legal name that does not come back. *)
+Theorem kv_roundtrip_wide_key_break_refuted :
+  pcfg_ok wide_break_pcfg = false /\
+  doc_names_ok [Leaf [97; 11; 98] [99]] = true /\
+  parse_kv wide_break_pcfg ref_escfg (fun _ => false)
+    (serialise_doc (ref_sercfg (PEsc FName)) ref_escfg default_opts [Leaf [97; 11; 98] [99]])
+  = PErr ENewlineKey.
+Proof. exact (conj wide_key_break_rejected wide_key_break_refuted). Qed.
+
+(** newline_values=False: the premise on values of kv_roundtrip_options is needed. *)
+Theorem kv_roundtrip_linebreak_value_refuted :
+  parse_kv_opts ref_pcfg {| po_newline_keys := false; po_newline_values := false; po_single_line := false;
+                            po_single_block := false |} ref_escfg (fun _ => false)
+    (serialise_doc (ref_sercfg (PEsc FName)) ref_escfg default_opts [Leaf [97] [98; 13]])
+  = PErr ENewlineValue.
+Proof. exact linebreak_value_refuted. Qed.
+
+(** * Delivery of the text: str, list of arbitrary chunks, file object (an iterable of chunks)
+
+    [tokens_flat T kv_topts] / [tokens_chk T kv_topts] are the reader-program model of [Tokenizer] built for C03
+    (Text/Tokenizer.v: [_get_token] etc. over [_next_char] and the push-back [_char_index -= 1]), with the options
+    Keyvalues.parse passes; [tables_match T E] (decidable, discharged for the regenerated tables) says that its
+    constant tables agree with those of the KV lexer model. *)
+
+(** The hand-written KV lexer computes exactly the tokens, and the error, of the C03 tokenizer model. *)
+Theorem kv_lexer_refines_tokenizer : forall T E, tables_match T E = true -> forall l,
+  conv_trace (tokens_flat T kv_topts (length l + 2) (length l + 2) 1 false l) = lex_all E l.
+Proof. exact lexer_refines. Qed.
+
+(** parse of a list of chunks = parse of the concatenation: for every cut (inside CR LF, an escape pair, a comment,
+    before a pushed-back delimiter), empty chunks included, every option vector and flag table. *)
+Theorem parse_any_delivery : forall T E, tables_match T E = true ->
+  forall P O flag_on cs n f, (length (concat cs) < n)%nat -> (length (concat cs) < f)%nat ->
+  parse_kv_reader P O T flag_on n f (chk_of_chunks cs) = parse_kv_opts P O E flag_on (concat cs).
+Proof. exact parse_any_delivery_chunks. Qed.
+
+(** ... and the same from any reader state that denotes the text (e.g. Tokenizer(str): one chunk). *)
+Theorem parse_any_delivery_reader_state : forall T E, tables_match T E = true ->
+  forall P O flag_on l s n f, R l s -> (length l < n)%nat -> (length l < f)%nat ->
+  parse_kv_reader P O T flag_on n f s = parse_kv_opts P O E flag_on l.
+Proof. exact parse_any_reader_state. Qed.
+
+(** The whole property for chunked delivery: however the serialised text is cut, the tree comes back. *)
+Theorem kv_roundtrip_any_delivery : forall C E P T, cfg_ok C = true -> esc_ok E = true -> pcfg_ok P = true ->
+  tables_match T E = true ->
+  forall flag_on o d cs n f, ws_opts o = true -> doc_names_ok d = true ->
+  concat cs = serialise_doc C E o d -> (length (concat cs) < n)%nat -> (length (concat cs) < f)%nat ->
+  parse_kv_reader P default_popts T flag_on n f (chk_of_chunks cs) = POk d.
+Proof. exact roundtrip_any_delivery. Qed.
+
+Theorem kv_delivery_hypotheses_satisfiable : tables_match ref_tables ref_escfg' = true.
+Proof. exact ref_tables_match. Qed.
+
+(** * The deprecated writer export()
+    [export_doc X E d] interprets the regenerated templates [X] of the generator ([''.join(tree.export())]); [xcfg_ok X]
+    is discharged for today's source.  The round trip holds for it exactly as for serialise(). *)
+Theorem kv_export_roundtrip : forall X E P, xcfg_ok X = true -> esc_ok E = true -> pcfg_ok P = true ->
+  forall flag_on O d, po_single_block O = false ->
+  po_newline_keys O || doc_names_ok d = true -> po_newline_values O || doc_values_ok d = true ->
+  parse_kv_opts P O E flag_on (export_doc X E d) = POk d.
+Proof. exact export_roundtrip_doc. Qed.
+
+Theorem kv_export_roundtrip_node : forall X E P, xcfg_ok X = true -> esc_ok E = true -> pcfg_ok P = true ->
+  forall flag_on O k, po_single_block O = false ->
+  po_newline_keys O || names_ok k = true -> po_newline_values O || values_ok k = true ->
+  parse_kv_opts P O E flag_on (export_node X E k) = POk [k].
+Proof. exact export_roundtrip_node. Qed.
+
+Theorem kv_export_hypotheses_satisfiable : xcfg_ok (ref_expcfg (PEsc FName)) = true.
+Proof. exact ref_xcfg_ok. Qed.
+
+(** The pinned export() (block name raw) is rejected, with the same witness as for _serialise. *)
+Theorem kv_export_raw_block_name_refuted :
+  xcfg_ok (ref_expcfg (PRaw FName)) = false /\
+  parse_kv ref_pcfg ref_escfg (fun _ => false) (export_doc (ref_expcfg (PRaw FName)) ref_escfg raw_block_witness)
+  = PErr (ELex LUnterminated).
+Proof. exact (conj raw_export_rejected raw_export_refuted). Qed.
+
+(** * The flags parameter of Keyvalues.parse
+    [read_flag casefold flags defaults] mirrors [_read_flag] (KV/KvFlags.v; compared with the implementation through
+    the [flags=] parameter on every run).  Whatever mapping is passed, the round trip is the same. *)
+Theorem kv_roundtrip_any_flags : forall C E P, cfg_ok C = true -> esc_ok E = true -> pcfg_ok P = true ->
+  forall casefold flags defaults o d, ws_opts o = true -> doc_names_ok d = true ->
+  parse_kv P E (read_flag casefold flags defaults) (serialise_doc C E o d) = POk d.
+Proof. exact roundtrip_any_flags. Qed.
